@@ -115,6 +115,7 @@ theorem zloop1_nonzero (rng : ByteArray) : ∀ (k i : Nat) (st : ZSt), i + k = r
         intro h; apply h0; exact UInt8.toNat_inj.1 (by rw [h]; rfl)
       simp only [datafile.zeroUntilEnd.body1, ne_eq, h1, not_false_eq_true, ↓reduceIte, Ctl.step]
 
+set_option linter.unusedSimpArgs false in -- (alternative forms for harmless rewrites of the Go source)
 /-- one iteration of the outer loop: the next window of at most one block is read and tested -/
 theorem zbody0_spec (file : ByteArray) (st : ZSt) (F : Nat) (hF : st.from_ = (F : Int)) (hbs : st.block.size = 32768)
     (hlt : F < file.size) (hf : file.size < 2^62) :
@@ -131,6 +132,8 @@ theorem zbody0_spec (file : ByteArray) (st : ZSt) (F : Nat) (hF : st.from_ = (F 
     rw [i64_of_range (by omega) (by omega)]
     simp only [datafile.blockSize]
     omega
+  have hnI' : min ((datafile.blockSize : Nat) : Int) (i64 ((file.size : Int) - (F : Int))) = (n : Int) := by
+    rw [Int.min_comm]; exact hnI
   have hwin := read_window blk file F n 0 (by omega)
   have hsr := size_read blk file F n (by omega) (by omega)
   have hrs : (file.extract (F + 0) (F + n)).size = n := by rw [ByteArray.size_extract]; omega
@@ -142,7 +145,7 @@ theorem zbody0_spec (file : ByteArray) (st : ZSt) (F : Nat) (hF : st.from_ = (F 
       ⟨(F : Int), putAt blk 0 (file.extract F (F + (n - 0))), (n : Int), b0⟩ (by omega)
       (by rw [hrs]; exact hzw.2 hz)
     refine ⟨{ st' with from_ := i64 (st'.from_ + st'.n) }, ?_, ?_, ?_⟩
-    · simp only [datafile.zeroUntilEnd.body0, hnI, Int.toNat_natCast, hwin, hrs, e, Ctl.sub]
+    · simp only [datafile.zeroUntilEnd.body0, hnI, hnI', Int.toNat_natCast, hwin, hrs, e, Ctl.sub]
     · show i64 (st'.from_ + st'.n) = _
       rw [e1, e3]
       simp only []
@@ -155,7 +158,7 @@ theorem zbody0_spec (file : ByteArray) (st : ZSt) (F : Nat) (hF : st.from_ = (F 
     have := zloop1_nonzero (file.extract F (F + n)) n 0
       ⟨(F : Int), putAt blk 0 (file.extract F (F + (n - 0))), (n : Int), b0⟩ (by omega)
       (by rw [hrs]; exact fun h => hz (hzw.1 h))
-    simp only [datafile.zeroUntilEnd.body0, hnI, Int.toNat_natCast, hwin, hrs, this, Ctl.sub]
+    simp only [datafile.zeroUntilEnd.body0, hnI, hnI', Int.toNat_natCast, hwin, hrs, this, Ctl.sub]
 
 theorem allZeroFrom_ge (file : ByteArray) (F : Nat) (h : file.size ≤ F) : allZeroFrom file F = true :=
   (allZeroFrom_iff file F).2 (fun j h1 h2 => by omega)
@@ -287,7 +290,7 @@ set_option hygiene false in
 /-- the same with the facts about the block window and the decoded chunk (no final `omega`) -/
 local macro "ndd" : tactic =>
   `(tactic| (simp (disch := omega) only [hfs, datafile.blockSize, datafile.chunkHeaderSize, datafile.Full, datafile.Last,
-      i64_of_range, Int.toNat_natCast, Nat.mod_eq_of_lt, hsize.h, hoff.h, hwin, hdec,
+      i64_of_range, Int.toNat_natCast, Nat.mod_eq_of_lt, hsize.h, hsize2.h, hsize3.h, hoff.h, hoff2.h, hwin, hdec,
       ne_eq, not_true_eq_false, not_false_eq_true, reduceCtorEq, Option.some.injEq, String.reduceEq,
       and_true, true_and, and_false, false_and, or_false, false_or, or_true, true_or, Bool.false_eq_true]))
 
@@ -383,6 +386,12 @@ theorem nbody0_ok (file pool0 : ByteArray) (tol : Bool) (st : NSt) (B O size : N
   have hsize : Hid ((min ((file.size : Int) - (st.reader_blockID : Int) * ((32768 : Nat) : Int)) ((32768 : Nat) : Int) % 2 ^ 32).toNat
       = size) := ⟨by omega⟩
   have hoff : Hid (((st.reader_blockID : Int) * ((32768 : Nat) : Int)).toNat = st.reader_blockID * 32768) := ⟨by omega⟩
+  -- (the same facts for the operands in the other order: harmless rewrites of the Go source)
+  have hsize2 : Hid ((min ((32768 : Nat) : Int) ((file.size : Int) - (st.reader_blockID : Int) * ((32768 : Nat) : Int)) % 2 ^ 32).toNat
+      = size) := ⟨by omega⟩
+  have hsize3 : Hid ((min ((file.size : Int) - ((32768 : Nat) : Int) * (st.reader_blockID : Int)) ((32768 : Nat) : Int) % 2 ^ 32).toNat
+      = size) := ⟨by omega⟩
+  have hoff2 : Hid ((((32768 : Nat) : Int) * (st.reader_blockID : Int)).toNat = st.reader_blockID * 32768) := ⟨by omega⟩
   clear hsz
   have hwin := read_window st.reader_blockBuf file (st.reader_blockID * 32768) size st.reader_offset (by omega)
   have hdec := trans_DecodeChunk_eq (file.extract (st.reader_blockID * 32768 + st.reader_offset)
@@ -404,7 +413,7 @@ theorem nbody0_ok (file pool0 : ByteArray) (tol : Bool) (st : NSt) (B O size : N
   rw [if_neg (by ndd)] at hX
   by_cases ht : @Eq Nat t 0 ∨ @Eq Nat t 3
   · rw [if_pos ht]
-    rw [if_pos (by ndd; exact ht)] at hX
+    rw [if_pos (by ndd; omega)] at hX
     by_cases hc : st.reader_offset + 7 + p.size + 7 ≥ 32768
     · rw [if_pos (by ndd; omega)] at hX
       subst hX
@@ -440,7 +449,7 @@ theorem nbody0_ok (file pool0 : ByteArray) (tol : Bool) (st : NSt) (B O size : N
         omega
       · rfl
   · rw [if_neg ht]
-    rw [if_neg (by ndd; exact ht)] at hX
+    rw [if_neg (by ndd; omega)] at hX
     subst hX
     refine ⟨_, rfl, ?_, ?_, ?_, ?_, ?_, ?_, ?_, ?_⟩
     · show _ ++ _ = _
@@ -457,6 +466,7 @@ theorem nbody0_ok (file pool0 : ByteArray) (tol : Bool) (st : NSt) (B O size : N
     · rfl
 
 
+set_option linter.unusedSimpArgs false in -- (alternative forms for harmless rewrites of the Go source)
 /-- the chunk at `(B, O)` does not decode (`inc`: it is incomplete, otherwise its checksum is wrong): end of the log
     under the model's three rules, `ErrInvalidCRC` otherwise -/
 theorem nbody0_bad (file pool0 : ByteArray) (tol inc : Bool) (st : NSt) (B O size : Nat) (e : String)
@@ -477,6 +487,12 @@ theorem nbody0_bad (file pool0 : ByteArray) (tol inc : Bool) (st : NSt) (B O siz
   have hsize : Hid ((min ((file.size : Int) - (st.reader_blockID : Int) * ((32768 : Nat) : Int)) ((32768 : Nat) : Int) % 2 ^ 32).toNat
       = size) := ⟨by omega⟩
   have hoff : Hid (((st.reader_blockID : Int) * ((32768 : Nat) : Int)).toNat = st.reader_blockID * 32768) := ⟨by omega⟩
+  -- (the same facts for the operands in the other order: harmless rewrites of the Go source)
+  have hsize2 : Hid ((min ((32768 : Nat) : Int) ((file.size : Int) - (st.reader_blockID : Int) * ((32768 : Nat) : Int)) % 2 ^ 32).toNat
+      = size) := ⟨by omega⟩
+  have hsize3 : Hid ((min ((file.size : Int) - ((32768 : Nat) : Int) * (st.reader_blockID : Int)) ((32768 : Nat) : Int) % 2 ^ 32).toNat
+      = size) := ⟨by omega⟩
+  have hoff2 : Hid ((((32768 : Nat) : Int) * (st.reader_blockID : Int)).toNat = st.reader_blockID * 32768) := ⟨by omega⟩
   clear hsz
   have hwin := read_window st.reader_blockBuf file (st.reader_blockID * 32768) size st.reader_offset (by omega)
   have hzz : ∀ (i j : Int) (k : Nat) (b : Bool), i = (k : Int) → j = (file.size : Int) → allZeroFrom file k = b →
@@ -545,7 +561,7 @@ theorem nbody0_bad (file pool0 : ByteArray) (tol inc : Bool) (st : NSt) (B O siz
           rw [if_pos (by ndd; omega)] at hX
           rw [end_eq _ (ce : Int) (by
             simp (disch := omega) only [hfs, datafile.blockSize, datafile.chunkHeaderSize, i64_of_range,
-              Nat.mod_eq_of_lt, hsize.h, hoff.h, hL h7]
+              Nat.mod_eq_of_lt, hsize.h, hsize2.h, hsize3.h, hoff.h, hoff2.h, hL h7]
             omega)] at hX
           toltail
         · rw [if_neg h7] at hce
@@ -642,11 +658,16 @@ theorem nbody0_spec (file pool0 : ByteArray) (tol : Bool) (st : NSt) (B O : Nat)
 
 /-! ### `endOfLog`, the loop, the function -/
 
+set_option linter.unusedSimpArgs false in -- (alternative forms for harmless rewrites of the Go source)
 /-- **`(*DataReader).endOfLog`**: the end of the log inside a record (`cnt > 0` chunks already consumed) is an
     error for a reader that does not tolerate a torn tail -/
 theorem trans_endOfLog_eq (tol : Bool) (cnt : Nat) :
     datafile.endOfLog tol cnt = if cnt > 0 ∧ tol = false then some "ErrInvalidCRC" else some "io.EOF" := by
-  cases tol <;> simp [datafile.endOfLog]
+  rcases Nat.eq_zero_or_pos cnt with h | h
+  · subst h
+    cases tol <;> simp [datafile.endOfLog]
+  · have h' : cnt ≠ 0 := by omega
+    cases tol <;> simp [datafile.endOfLog, h, h']
 
 theorem endOfLog_zero (tol : Bool) : datafile.endOfLog tol 0 = some "io.EOF" := by
   rw [trans_endOfLog_eq]; simp
